@@ -4,10 +4,14 @@ from . import common
 from .common import Violation, TieBroken
 
 TH = {
-    'C07': ['prove_ok_iff', 'prove_error_no_proof', 'verify_own_hash', 'verify_other_hash_rejects', 'verify_other_system_rejects', 'validateShape_guards_indexing'],
-    'C09': ['respond_total_classified', 'respond_405_iff', 'respond_malformed_iff', 'respond_200_iff_valid_batch', 'respond_200_body_verifies', 'respond_stateless'],
-    'C13': ['concurrent_eq_sequential'],
-    'C19': ['verify_exit_truth', 'bad_mode_nonzero', 'unreadable_keys_nonzero', 'unprovable_nonzero', 'prove_stdout_is_one_proof', 'pipeline_composes'],
+    'C07': ['prove_ok_iff', 'proveInsertion_ok_iff', 'proveDeletion_ok_iff', 'prove_error_no_proof', 'prove_never_panics', 'verify_iff', 'verify_own_hash',
+            'verify_other_hash_rejects', 'verify_other_system_rejects', 'validateShape_guards_indexing_insertion',
+            'validateShape_guards_indexing_deletion', 'prove_cross_mode'],
+    'C09': ['respond_total_classified', 'respond_outcomes_exclusive', 'respond_405_iff', 'respond_malformed_iff', 'respond_provingError_iff',
+            'respond_200_iff_valid_batch', 'respond_200_body_verifies', 'respond_stateless'],
+    'C13': ['concurrent_eq_sequential', 'concurrent_valid_gets_own_proof', 'sys_readonly'],
+    'C19': ['verify_exit_truth', 'verify_exit_zero_iff', 'bad_mode_nonzero', 'unreadable_keys_nonzero', 'unprovable_nonzero', 'prove_exit_zero_iff',
+            'prove_stdout_is_one_proof', 'pipeline_composes', 'pipeline_rejects'],
 }
 IDEAL = ("Groth16 is an ideal functionality in the model: Prove succeeds iff the circuit relation holds of the witness; a proof verifies exactly for "
          "its own system and its public input modulo r. Knowledge soundness / completeness of gnark's Groth16 are assumptions, exercised with real Setup/Prove/Verify here, not proved")
